@@ -64,8 +64,8 @@ PROPS["C03"] = dict(
 
 PROPS["C04"] = dict(
     level="proof",
-    verus=["c04_partition", "c04_precedence", "c04_ids"],
-    labels=["C04."] + MASK,
+    verus=["c04_partition", "c04_precedence", "c04_ids", "c01_lookup", "c05_optimizer"],
+    labels=["C04.", "C01.check", "C05.fusion.", "C05.key.", "C05.select."] + MASK,
     kani=[KaniSet("src/filters/network.rs", "c04_ids.rs", [
         Harness("c04_id_twin", "C04.id.twin", "B", "twin of C04.id.all_components: strings <= 2 ASCII chars, domain lists <= 2 hashes, symbolic 32-bit mask (unwind 4, unwinding assertions on)"),
     ])],
@@ -159,14 +159,14 @@ PROPS["C10"] = dict(
 
 PROPS["C18"] = dict(
     level="proof",
-    verus=["c18_gate", "c18_stringify", "c16_resources"],
+    verus=["c18_gate", "c18_stringify", "c16_resources", "c18_args"],
     labels=["C18.", "C13.redirect_resource.", "C13.kind.", "C16.resources."],
     kani=[KaniSet("src/resources/mod.rs", "c18_perm.rs", [
         Harness("c18_perm_subset", "C18.perm.subset", "C", "all 256x256 pairs; loop over the 8 bit positions fully unwound"),
         Harness("c18_perm_default", "C18.perm.default", "C", "all u8 x u8, loop-free"),
     ])],
     trusted=["name/alias lookup in ResourceStorage (HashMap<String,_> probed by &str) uninterpreted",
-             "argument-list parsing, template rendering, base64 decoding: lifted (R6) in the gate proof",
+             "template rendering, base64 decoding: lifted (R6) in the gate proof; argument-list parsing (unit c18_args): index_next_unescaped_separator (first separator with an even number of backslashes before it; needs_transform) and normalize_arg (its left-to-right pass) are proved functionally, parse_scriptlet_args only for totality (no slice off a boundary or out of range, no overflow, termination) - WHICH pieces it returns is not under contract; str::find / trim / chars().next() lifted (R6)",
              "stringify_arg: only its escaping core write_string_complex and the ESCAPED table are under contract; the surrounding fast path (labelled block: outside the Verus subset) and the quotes are not",
              "core::fmt: format!(\"{:04x}\", byte) is zero-padded lower-case hex (axiom for that literal only)",
              "Iterator::find over a slice returns an element of the slice (vf_iter shim)",
@@ -177,7 +177,7 @@ PROPS["C18"] = dict(
                "was granted to the requesting list (for any dependency graph, any prior list contents), that only injectable kinds are injected, that a resource requiring any permission or of a "
                "non-redirectable kind is never served as a redirect, that the escaping core of stringify_arg writes, byte for byte, the JSON escape of the argument, each escape decoding back to its byte (all strings), "
                "and that the per-host merge requests each scriptlet with the OR of the permissions of the lists that asked for it, removes exactly the identically-spelled exceptions, and everything under a blanket exception",
-    level_note="argument-list parsing (parse_scriptlet_args) is not under contract",
+    level_note="the split of an argument list into arguments (parse_scriptlet_args) is proved total, not functionally",
     design_ref="DESIGN.md section 4, C18",
 )
 
